@@ -782,7 +782,7 @@ def check_call(ctx, case, P, f, flags, opts, res, site, hist=True):
 
 
 def stream_pipeline(ctx, reqs, pending):
-    n_img = ctx.n(1200, 20000)
+    n_img = ctx.n(800, 20000)
     for idx in range(n_img):
         r = ctx.rng('pipe', idx)
         P, _ = gen_pipeline_case(r, idx)
@@ -962,7 +962,7 @@ def stream_flags(ctx, reqs, pending):
     tuples = list(all_flag_tuples())
     full = ctx.tier == 'thorough' and not ctx.search_mode
     r = ctx.rng('flags', 0)
-    budget = ctx.n(6000, len(rows) * len(tuples))
+    budget = ctx.n(4000, len(rows) * len(tuples))
     per_row = len(tuples) if full else max(1, budget // len(rows))
     for ct, pres in rows:
         P = flag_image(ct, pres)
